@@ -470,7 +470,7 @@ def execute(scenario, chooser):
             start_dt=datetime.datetime(2024, 3, 5, start[0], start[1],
                                        int(start[2]),
                                        int((start[2] % 1) * 1e6)),
-            stall=True, max_stall=max(2.0, 2 * tick))
+            stall=True, max_stall=max(2.0, 2 * tick), fairness=60)
     res = {'violations': viol, 'digest': sim.digest(),
            'switch_digest': sim.switch_digest(), 'sim_time': sim.now,
            'steps': sim.steps, 'faults': {}, 'probes': dict(sim.stats),
